@@ -48,6 +48,7 @@ type g struct {
 	wide   bool
 	nkeys  int
 	iv     int64
+	r2     *kit.Rand // decides whether and how to probe
 }
 
 func (x *g) key() []byte {
@@ -162,6 +163,35 @@ func (x *g) vread() {
 	}
 }
 
+// probe: right after an unsaved Set / Remove of k, range iterations over the working tree
+// whose bounds are equal or adjacent to k (start == k, end == k, successor k\x00,
+// a predecessor), both directions: the merge of saved state and pending changes is most
+// fragile exactly at the bounds
+func (x *g) probe(k []byte) {
+	r := x.r2
+	if !r.Chance(40) {
+		return
+	}
+	succ := append(append([]byte{}, k...), 0x00)
+	var pred []byte
+	switch {
+	case len(k) == 0:
+		pred = nil
+	case k[len(k)-1] == 0:
+		pred = append([]byte{}, k[:len(k)-1]...)
+	default:
+		pred = append([]byte{}, k...)
+		pred[len(pred)-1]--
+		pred = append(pred, 0xff)
+	}
+	type be struct{ s, e []byte }
+	cands := []be{{k, nil}, {k, succ}, {nil, k}, {k, k}, {pred, k}, {pred, succ}, {succ, nil}, {nil, succ}, {k, x.bound()}, {x.bound(), k}}
+	for n := r.Range(1, 2); n > 0; n-- {
+		c := kit.Pick(r, cands)
+		x.w.Op("it %s %s %s %d", dir(r), bnd(c.s), bnd(c.e), r.Intn(2))
+	}
+}
+
 func (x *g) save() {
 	x.w.Op("save")
 	if x.ver == 0 && x.latest == 0 {
@@ -195,9 +225,13 @@ func (x *g) history(nops int) {
 		p := r.Intn(100)
 		switch {
 		case p < setW:
-			w.Op("set %s %s", hxs(x.key()), hxs(x.val()))
+			k := x.key()
+			w.Op("set %s %s", hxs(k), hxs(x.val()))
+			x.probe(k)
 		case p < setW+rmW:
-			w.Op("rm %s", hxs(x.key()))
+			k := x.key()
+			w.Op("rm %s", hxs(k))
+			x.probe(k)
 		case p < setW+rmW+14:
 			x.read()
 		case p < setW+rmW+26:
@@ -304,6 +338,11 @@ func boundary(w *kit.Out) {
 	// loading an old version and saving again: same contents = idempotent, different = error
 	cs("b-resave", "set 61 01", "save", "set 62 02", "save", "load 1", "ver", "it a - - 0", "set 62 02", "whash", "save", "ver", "it a - - 0", "load 1", "set 62 03", "save", "ver", "it a - - 0", "rollback", "it a - - 0", "save", "load 1", "save", "ver", "load 2", "rm 62", "rm 61", "save", "load 0", "ver")
 	cs("b-lvo", "set 61 01", "save", "set 62 02", "save", "set 63 03", "save", "lvo 1", "avail", "it a - - 0", "set 62 09", "save", "ihash 2", "iit 2 a - - 0", "lvo 5", "avail", "reopen", "avail", "lvo 1", "save", "avail")
+	// unsaved changes at the bounds of a working-tree range (saved state + pending changes)
+	cs("b-unsaved-bounds", "set 61 01", "set 63 03", "save", "set 61 02", "it a 61 - 0", "it d 61 - 0", "it a 61 6100 0", "it a - 61 0",
+		"it a 61 61 0", "set 62 09", "it a 62 - 0", "it d 62 63 0", "it a 61ff 6200 0", "it a - 62 0", "it a 6200 - 0", "rm 63", "it a 63 - 0",
+		"it d - 6300 0", "it a 62 63 0", "set e 07", "it a e - 0", "it a e 00 0", "rm 61", "it a 61 - 0", "it d 60ff 6100 0", "save",
+		"it a 61 - 0", "it a 62 - 0")
 	cs("b-rollback", "rollback", "set 61 01", "rollback", "size", "set 61 01", "save", "set 62 02", "rm 61", "rollback", "it a - - 0", "save", "hash", "ihash 2", "ishape 2")
 	cs("b-delto-errors", "set 61 01", "save", "delto 1", "delto 2", "delto 9223372036854775807", "delto -9223372036854775808", "save", "delto 1", "delto 1", "delto 0", "avail", "load 1", "iget 1 61", "vget 1 61", "prove 1 61", "vex 1", "vex 2")
 	cs("b-initial-version", "new 10000 5 100000", "ver", "whash", "set 61 01", "whash", "save", "ver", "avail", "vex 1", "vex 4", "vex 5", "ishape 5", "prove 5 61", "save", "reopen", "avail", "load 5", "load 4", "delto 5", "reopen", "avail")
@@ -378,6 +417,7 @@ func gen(w *kit.Out, r *kit.Rand, tier string) {
 	ivs := []int64{0, 0, 0, 0, 0, 0, 3, 7}
 	for c := 0; c < nCases; c++ {
 		x := &g{w: w, r: r.Fork(), iv: ivs[c%len(cfgs)]}
+		x.r2 = x.r.Fork()
 		w.Case(fmt.Sprintf("h%d", c))
 		cfg := cfgs[c%len(cfgs)]
 		if cfg != "" {
@@ -387,6 +427,7 @@ func gen(w *kit.Out, r *kit.Rand, tier string) {
 	}
 	for c := 0; c < nWide; c++ {
 		x := &g{w: w, r: r.Fork(), wide: true, iv: ivs[(c+1)%len(cfgs)]}
+		x.r2 = x.r.Fork()
 		x.nkeys = []int{24, 60, 200, 600}[c%4]
 		w.Case(fmt.Sprintf("w%d", c))
 		cfg := cfgs[(c+1)%len(cfgs)]
